@@ -341,7 +341,18 @@ class Eraser {
     if (fraw.type === 'MemberExpression' && fraw.property.type === 'Identifier') rec.method = fraw.property.value
     fb.uses++
     let path = this.bindingExpr(fb)
-    if (isObj(path)) path = Object.assign({}, path, { $fromTemp: { name: fb.name, order: fb.order, seq: fb.seq, protoPath: true } })
+    // the stated exemption covers a STATIC path only (names, `this`, literals, keys that are names or literals,
+    // parentheses): a holder that runs code keeps its place in the evaluation order
+    const isStaticPath = (n) => {
+      n = unparen(n)
+      if (!isObj(n)) return false
+      if (n.type === 'Identifier' || n.type === 'ThisExpression' || /Literal$/.test(n.type)) return true
+      if (n.type !== 'MemberExpression') return false
+      const pr = n.property
+      const keyOk = isObj(pr) && (pr.type === 'Identifier' || pr.type === 'PrivateName' || (pr.type === 'Computed' && (() => { const k = unparen(pr.expression); return isObj(k) && (k.type === 'Identifier' || /Literal$/.test(k.type)) })()))
+      return keyOk && isStaticPath(n.object)
+    }
+    if (isObj(path)) path = Object.assign({}, path, { $fromTemp: { name: fb.name, order: fb.order, seq: fb.seq, protoPath: isStaticPath(fraw) } })
     const callee = { type: 'MemberExpression', span: f.callee.span, object: path, property: f.callee.property }
     return { type: 'CallExpression', span: f.span, callee, arguments: this.erArgs(cargs, env), typeArguments: null }
   }
